@@ -484,3 +484,43 @@ Proof.
     apply andb_true_iff in Hu as [Hu Hr]. apply negb_true_iff in Hu. cbn [marks]. rewrite Hu. apply IH, Hr. }
   apply H, step_runs_unmarked.
 Qed.
+
+(* ---------- the output skeleton has no two consecutive blank lines ---------- *)
+Fixpoint no_adj_empty (ks : list skind) : bool :=
+  match ks with
+  | [] => true
+  | k :: t => negb (is_emptyk k && match t with k2 :: _ => is_emptyk k2 | [] => false end) && no_adj_empty t
+  end.
+
+Lemma no_adj_empty_runs rs : canon rs = true -> enorm rs = true -> no_adj_empty (expand rs) = true.
+Proof.
+  induction rs as [|[k1 m1] t IH]; intros Hc He; [reflexivity|].
+  cbn [canon] in Hc. apply andb_true_iff in Hc as [Hc Hct]. apply andb_true_iff in Hc as [Hm Hadj].
+  cbn [enorm] in He. apply andb_true_iff in He as [He Het]. specialize (IH Hct Het).
+  rewrite expand_cons. destruct (is_emptyk k1) eqn:Ek.
+  - apply Nat.eqb_eq in He. subst m1. cbn [repeat app no_adj_empty]. rewrite Ek, IH, andb_true_r. cbn [andb].
+    apply negb_true_iff. destruct t as [|[k2 m2] t']; [reflexivity|]. rewrite expand_cons. cbn [repeat app].
+    unfold is_emptyk in Ek. apply skind_eqb_eq in Ek. subst k1.
+    cbn [is_func skind_eqb orb] in Hadj. rewrite orb_false_r in Hadj. apply negb_true_iff in Hadj.
+    unfold is_emptyk. destruct k2; simpl in *; congruence.
+  - clear He Hm Hadj. induction m1 as [|m IHm].
+    + cbn [repeat app no_adj_empty]. rewrite Ek. cbn [andb negb]. exact IH.
+    + change (repeat k1 (S (S m)) ++ expand t) with (k1 :: (repeat k1 (S m) ++ expand t)).
+      cbn [no_adj_empty]. rewrite Ek. cbn [andb negb]. exact IHm.
+Qed.
+
+Theorem skel_step_no_adj_empty ks : no_adj_empty (skel_step true ks) = true.
+Proof.
+  destruct ks as [|k t]; [reflexivity|].
+  rewrite <- (expand_rle (k :: t)).
+  rewrite (skel_step_runs (rle (k :: t))) by (auto using rle_nonempty, canon_rle).
+  apply no_adj_empty_runs; [apply step_runs_canon, canon_rle | apply step_runs_enorm].
+Qed.
+
+Lemma skel_step_nonempty ks : skel_step true ks <> [].
+Proof.
+  destruct ks as [|k t]; [discriminate|].
+  rewrite <- (expand_rle (k :: t)).
+  rewrite (skel_step_runs (rle (k :: t))) by (auto using rle_nonempty, canon_rle).
+  apply expand_nonempty, step_runs_nonempty, rle_nonempty.
+Qed.
